@@ -3229,6 +3229,9 @@ impl Value {
             })
         }
         let mut has_wrap_to_string = false;
+        // whether the expression built so far ends with a static text piece (which further
+        // static text is appended to)
+        let mut tail_is_text = false;
         loop {
             if until(ps) || ps.ended() {
                 break;
@@ -3284,6 +3287,7 @@ impl Value {
                             double_brace_location,
                             binding_map_keys: None,
                         };
+                        tail_is_text = false;
                         continue;
                     }
                     Some(Value::Static { .. }) => {
@@ -3300,15 +3304,10 @@ impl Value {
                 binding_map_keys,
             } = ret
             {
-                let need_convert = if let Expression::Plus { right, .. } = &*expression {
-                    if let Expression::LitStr { .. } = &**right {
-                        false
-                    } else {
-                        true
-                    }
-                } else {
-                    true
-                };
+                // (a string literal written inside the binding, as in `{{ a + 'b' }}c`, is not a
+                // text piece)
+                let need_convert = !tail_is_text;
+                tail_is_text = true;
                 if need_convert {
                     let left = if has_wrap_to_string {
                         expression
